@@ -405,7 +405,7 @@ Lemma rti_restores e s v p s1 s2 :
     (psr_privileged (s_psr s) = true -> s_saved_sp s3 = s_saved_sp s) /\
     (forall k, 0 <= k -> k <> 6 -> rget (s_regs s3) k = rget (s_regs s2) k) /\
     s_mem s3 = s_mem s2 /\ s_instrs s3 = s_instrs s2 /\ s_devs s3 = s_devs s2 /\ s_flags s3 = s_flags s2 /\
-    regs8 (s_regs s3) /\ s_mcr s3 = s_mcr s2 /\ s_ireg s3 = s_ireg s2 /\
+    regs8 (s_regs s3) /\ s_mcr s3 = s_mcr s2 /\ s_ireg s3 = s_ireg s2 /\ s_alloca s3 = s_alloca s2 /\
     rget (s_regs s3) 6 = (if psr_privileged (s_psr s) then w_add (w_sub (entry_sp s) (new_init 2)) (new_init 2) else rget (s_regs s) 6) /\
     s_saved_sp s3 = (if psr_privileged (s_psr s) then s_saved_sp s else w_add (w_sub (entry_sp s) (new_init 2)) (new_init 2)).
 Proof.
@@ -668,12 +668,13 @@ Record peq (s s' : sim) : Prop := {
   pq_io : same_io (s_devs s) (s_devs s');
   pq_mcr : s_mcr s' = s_mcr s;
   pq_flags : s_flags s' = s_flags s;
-  pq_ireg : s_ireg s' = s_ireg s }.
+  pq_ireg : s_ireg s' = s_ireg s;
+  pq_alloca : s_alloca s' = s_alloca s }.
 Lemma peq_refl s : peq s s.
 Proof. constructor; auto. apply same_io_refl. Qed.
 Lemma peq_trans a b c : peq a b -> peq b c -> peq a c.
 Proof.
-  intros [A1 A2 A3 A4 A5 A6 A7 A8 A9] [B1 B2 B3 B4 B5 B6 B7 B8 B9]. constructor; try congruence.
+  intros [A1 A2 A3 A4 A5 A6 A7 A8 A9 A10] [B1 B2 B3 B4 B5 B6 B7 B8 B9 B10]. constructor; try congruence.
   - intros x Hx. rewrite B5, A5 by exact Hx. reflexivity.
   - eapply same_io_trans; eassumption.
 Qed.
@@ -690,7 +691,8 @@ Record HandlerOK (s s1 s2 : sim) : Prop := {
   hk_io : same_io (s_devs s1) (s_devs s2);
   hk_mcr : s_mcr s2 = s_mcr s1;
   hk_flags : s_flags s2 = s_flags s1;
-  hk_ireg : s_ireg s2 = s_ireg s1 }.
+  hk_ireg : s_ireg s2 = s_ireg s1;
+  hk_alloca : s_alloca s2 = s_alloca s1 }.
 
 Lemma regs8_ext (a b : regs) : regs8 a -> regs8 b -> (forall k, 0 <= k < 8 -> rget a k = rget b k) -> a = b.
 Proof.
@@ -722,9 +724,9 @@ Theorem serviced_once e s v p s1 s2 :
   (exists d, entry_sp s = new_init d /\ 2 <= d <= 12288) ->
   exists s3, exec e SRTI s2 = (s3, inl tt) /\ peq s s3 /\ s_instrs s3 = s_instrs s2.
 Proof.
-  intros Hpre Hpost [Hret Hregs Humem Hio Hmcr Hfl Hir] (d & Hd & Hdr).
+  intros Hpre Hpost [Hret Hregs Humem Hio Hmcr Hfl Hir Hal] (d & Hd & Hdr).
   destruct (rti_restores e s v p s1 s2 Hpre Hpost Hret) as
-    (s3 & Hx & Hpc & Hpsr & _ & _ & _ & _ & Hoth & Hmem & Hins & Hdev & Hflg & Hr8' & Hmcr3 & Hir3 & Hr6 & Hssp).
+    (s3 & Hx & Hpc & Hpsr & _ & _ & _ & _ & Hoth & Hmem & Hins & Hdev & Hflg & Hr8' & Hmcr3 & Hir3 & Hal3 & Hr6 & Hssp).
   { rewrite Hd. cbn [w_data new_init]. lia. }
   exists s3. split; [exact Hx|]. split; [|exact Hins].
   pose proof (ep_regs _ _ _ Hpre) as Hr8.
@@ -753,6 +755,7 @@ Proof.
   - rewrite Hmcr3, Hmcr. apply (eq_mcr _ _ _ _ Hpost).
   - rewrite Hflg, Hfl. apply (eq_flags _ _ _ _ Hpost).
   - rewrite Hir3, Hir. apply (eq_ireg _ _ _ _ Hpost).
+  - rewrite Hal3, Hal. apply (eq_alloca _ _ _ _ Hpost).
 Qed.
 
 (* any number of interrupts serviced one after the other at the same boundary (each: taken by the
